@@ -1033,6 +1033,7 @@ pub struct ObjFiber {
     pub(crate) exc_handlers: Vec<ExcHandler>,
     pub(crate) return_ip: Option<*const u8>,
     pub(crate) error_ip: Option<*const u8>,
+    pub(crate) pending_exception: Value,
 }
 
 impl ObjFiber {
@@ -1056,6 +1057,7 @@ impl ObjFiber {
             exc_handlers: Vec::new(),
             return_ip: None,
             error_ip: None,
+            pending_exception: Value::None,
         }
     }
 
@@ -1173,6 +1175,7 @@ impl GcManaged for ObjFiber {
             caller.mark();
         }
         self.return_value.mark();
+        self.pending_exception.mark();
     }
 
     fn blacken(&self) {
@@ -1185,6 +1188,7 @@ impl GcManaged for ObjFiber {
             caller.blacken();
         }
         self.return_value.blacken();
+        self.pending_exception.blacken();
     }
 
     #[cfg(yarel_verif)]
